@@ -104,7 +104,8 @@ def cmdParse : List String → String
       let text := parseCps s
       let r := parseWith g ⟨g, dk⟩ pk (parseIntList prior) text
       let doc := if pk == .omni then omniPrepass text else text
-      let errs := "[" ++ ",".intercalate (r.errors.map toString) ++ "]"
+      let errs := "[" ++ ",".intercalate (r.errors.map toString) ++ "],\"sites\":[" ++
+        ",".intercalate (r.sites.map fun x => "\"" ++ x ++ "\"") ++ "]"
       match r.outcome with
       | .ok items =>
         "{\"ok\":" ++ jVal (.cont .module items) ++ ",\"errors\":" ++ errs ++ "}"
